@@ -7,15 +7,22 @@ for d in sorted(glob.glob('/verif/seeded/C*')):
     agent = {}
     try: agent = json.load(open(d + '/meta.agent.json'))
     except Exception: pass
-    checks = {}
+    runs = []  # (check, outcome) in order
     cur = None
     for line in log.splitlines():
         m = re.match(r'== check (\S+) quick', line)
-        if m: cur = m.group(1); checks[cur] = 'no result'
-        elif cur and line.startswith('VIOLATION'): checks[cur] = 'caught: ' + line.strip()
-        elif cur and line.startswith('violation detail') and not checks[cur].startswith('caught'): checks[cur] = 'caught: ' + line.strip()[:200]
-        elif cur and line.startswith('OK') and not checks[cur].startswith('caught'): checks[cur] = 'MISSED: ' + line.strip()
-        elif cur and line.startswith('INCONCLUSIVE') and not checks[cur].startswith('caught'): checks[cur] = 'inconclusive: ' + line.strip()
+        if m:
+            cur = [m.group(1), 'no result', 're-run' in line]; runs.append(cur)
+        elif cur and line.startswith('VIOLATION'): cur[1] = 'caught: ' + line.strip()
+        elif cur and line.startswith('violation detail') and not cur[1].startswith('caught'): cur[1] = 'caught: ' + line.strip()[:200]
+        elif cur and line.startswith('OK') and not cur[1].startswith('caught'): cur[1] = 'MISSED: ' + line.strip()
+        elif cur and line.startswith('INCONCLUSIVE') and not cur[1].startswith('caught'): cur[1] = 'inconclusive: ' + line.strip()
+    checks = {}
+    for name, outcome, rerun in runs:
+        if name in checks and checks[name] != outcome:
+            checks[name] = 'first run ' + checks[name].split(':')[0] + '; after the check was strengthened: ' + outcome
+        else:
+            checks[name] = outcome
     def grab(pat):
         m = re.search(pat, log); return m.group(1) if m else None
     meta = {
